@@ -533,6 +533,41 @@ def rule_rng7(r: "RNG"):
                       f"{m} on the same object continues the random stream and differs from a fresh, equally seeded run")
 
 
+def rule_rng8(r):
+    """RNG-8 (written after seed C13-e): an in-place shuffle is applied to an object this function created (a fresh list / copy), never to an object
+    that may belong to the caller (a parameter, or a conditional alias of one): shuffling the caller's list changes the order the next run starts from."""
+    ctx = r.ctx
+    n = 0
+    for fi in r.fns:
+        if fi.is_lambda:
+            continue
+        params = set(fi.param_names)
+        for c in fn_body_nodes(fi):
+            if not (isinstance(c, ast.Call) and isinstance(c.func, ast.Attribute) and c.func.attr == "shuffle" and c.args and isinstance(c.args[0], ast.Name)):
+                continue
+            arg = c.args[0].id
+            cfg = cfg_of(fi)
+            try:
+                ds = cfg.reaching(cfg.node_for(c), arg)
+            except Exception:
+                ds = []
+            n += 1
+
+            def may_be_param(v):
+                if isinstance(v, ast.Name):
+                    return v.id in params
+                if isinstance(v, ast.IfExp):
+                    return may_be_param(v.body) or may_be_param(v.orelse)
+                if isinstance(v, ast.BoolOp):
+                    return any(may_be_param(x) for x in v.values)
+                return False
+            alias = [d for d in ds if d.kind == "param" or (d.kind == "assign" and d.value is not None and may_be_param(d.value))]
+            ctx.check(not alias if ds else None, "RNG-8", fi, c, "in-place shuffle is applied to an object created in this function", "",
+                      f"`{norm(c, 50)}` can shuffle the caller's own object (the shuffled name may be a parameter): the caller's sequence — e.g. the action list an MDP "
+                      "returns — is permuted for every later run")
+    return n
+
+
 def run(ctx: Ctx):
     r = RNG(ctx)
     ctx.extra["entry_points"] = [f.qualname for f in r.entries]
@@ -545,6 +580,8 @@ def run(ctx: Ctx):
     r.rule_rng5()
     rule_rng7(r)
     ctx.require("RNG-7", 8)
+    rule_rng8(r)
+    ctx.require("RNG-8", 2)
     setorder.rule_rng6(ctx, r.G, r.fns, "RNG-6")
     ctx.require("RNG-1", 7)
     ctx.require("RNG-2", 25)
